@@ -162,6 +162,10 @@ spec fn short(s: Seq<char>) -> bool { s.len() <= 0xffff_ffff }
 //@sub /(?s)    fn decorate_superscript_start\(&self\) -> \(String, Self::Annotation\) \{.*?\n    \}/ ==>     fn decorate_superscript_start(&self) -> (r: (String, Self::Annotation))
 //@sub /(?s)    fn decorate_superscript_end\(&self\) -> String \{.*?\n    \}/ ==>     fn decorate_superscript_end(&self) -> (r: String)
 //@sub /(?s)    fn finalise\(&mut self, urls: Vec<String>\) -> Vec<TaggedLine<Self::Annotation>> \{.*?\n    \}/ ==>     fn finalise(&mut self, urls: Vec<String>) -> (r: Vec<TaggedLine<Self::Annotation>>)
+//@sub /(?s)    fn push_colour\(&mut self, _c: Colour\) -> Option<Self::Annotation> \{\n        None\n    \}/ ==>     fn push_colour(&mut self, _c: Colour) -> (r: Option<Self::Annotation>)
+//@sub /(?s)    fn pop_colour\(&mut self\) -> bool \{\n        false\n    \}/ ==>     fn pop_colour(&mut self) -> (r: bool)
+//@sub /(?s)    fn push_bgcolour\(&mut self, _c: Colour\) -> Option<Self::Annotation> \{\n        None\n    \}/ ==>     fn push_bgcolour(&mut self, _c: Colour) -> (r: Option<Self::Annotation>)
+//@sub /(?s)    fn pop_bgcolour\(&mut self\) -> bool \{\n        false\n    \}/ ==>     fn pop_bgcolour(&mut self) -> (r: bool)
 trait TextDecorator: Sized {
     /// An annotation which can be added to text, and which will
     /// be attached to spans of text.
@@ -246,25 +250,25 @@ trait TextDecorator: Sized {
     /// for sub blocks.
     fn make_subblock_decorator(&self) -> Self;
 
+    // whether this kind of decorator annotates colours: it then answers every push with an annotation and every pop with true (the rich //@w
+    // decorator), otherwise never (the defaults of the trait); assumed of every implementation (A9) //@w
+    spec fn colours_spec() -> bool; //@w
+
     /// Return an annotation corresponding to adding colour, or none.
-    fn push_colour(&mut self, _c: Colour) -> Option<Self::Annotation> {
-        None
-    }
+    fn push_colour(&mut self, _c: Colour) -> (r: Option<Self::Annotation>)
+        ensures r is Some == Self::colours_spec(); //@w
 
     /// Pop the last colour pushed if we pushed one.
-    fn pop_colour(&mut self) -> bool {
-        false
-    }
+    fn pop_colour(&mut self) -> (r: bool)
+        ensures r == Self::colours_spec(); //@w
 
     /// Return an annotation corresponding to adding background colour, or none.
-    fn push_bgcolour(&mut self, _c: Colour) -> Option<Self::Annotation> {
-        None
-    }
+    fn push_bgcolour(&mut self, _c: Colour) -> (r: Option<Self::Annotation>)
+        ensures r is Some == Self::colours_spec(); //@w
 
     /// Pop the last background colour pushed if we pushed one.
-    fn pop_bgcolour(&mut self) -> bool {
-        false
-    }
+    fn pop_bgcolour(&mut self) -> (r: bool)
+        ensures r == Self::colours_spec(); //@w
     spec fn superscript_start_spec(&self) -> Seq<char>; //@w
 
     /// Return an annotation and rendering prefix for superscript text
@@ -696,7 +700,7 @@ impl<D: TextDecorator> SubRenderer<D> {
             r.is_ok() ==> final(self).wtotal() <= old(self).wtotal() + 0x4_0000_0000 || final(self).wtotal() <= old(self).width + 0x4_0000_0000, //@w @C01 #growth_bound
             final(self).lines@.len() >= old(self).lines@.len() && final(self).lines@.take(old(self).lines@.len() as int) =~= old(self).lines@, //@w @C03
             r.is_ok() ==> !final(self).at_block_end && final(self).lines@.len() >= old(self).lines@.len() + 1, //@w @C12 #empty_line_added
-            r.is_ok() ==> (final(self).lines@.last() matches RenderLine::Text(t) && t.len == 0), //@w @C12 #empty_line_is_blank
+            r.is_ok() ==> (final(self).lines@.last() matches RenderLine::Text(t) && t.len == 0), //@w @C12 @C15 #empty_line_is_blank
             r.is_ok() && old(self).flushable() ==> final(self).rview() =~= old(self).rview(), //@w @C03 @C09 @C14 #blank_line_keeps_view
     {
         proof { lemma_flat_empty_te::<Vec<D::Annotation>>(); } //@w
@@ -841,7 +845,8 @@ impl<D: TextDecorator> SubRenderer<D> {
 //@auto C01 C09
     fn push_colour(&mut self, colour: Colour)
         ensures //@w
-            (final(self).ann_stack@ == old(self).ann_stack@) || (final(self).ann_stack@.len() == old(self).ann_stack@.len() + 1 && final(self).ann_stack@.drop_last() == old(self).ann_stack@), //@w @C09 @C19 #colour_pushes_at_most_one
+            // C09 / C19: an element with a winning colour puts exactly one annotation on the stack when the decorator annotates colours, and none otherwise //@w
+            final(self).ann_stack@.len() == old(self).ann_stack@.len() + (if D::colours_spec() { 1int } else { 0int }) && final(self).ann_stack@.take(old(self).ann_stack@.len() as int) =~= old(self).ann_stack@, //@w @C09 @C19 #colour_pushes_exactly_one
             final(self).ws_stack@ == old(self).ws_stack@ && final(self).pre_depth == old(self).pre_depth && final(self).text_filter_stack@ == old(self).text_filter_stack@ && final(self).same_config(old(self)) && final(self).wrapping == old(self).wrapping && final(self).lines@ == old(self).lines@ && final(self).pending_frags@ == old(self).pending_frags@, //@w @C09
     {
         if let Some(ann) = self.decorator.push_colour(colour) {
@@ -853,7 +858,7 @@ impl<D: TextDecorator> SubRenderer<D> {
 //@auto C01 C09
     fn pop_colour(&mut self)
         ensures //@w
-            (final(self).ann_stack@ == old(self).ann_stack@) || (old(self).ann_stack@.len() > 0 && final(self).ann_stack@ == old(self).ann_stack@.drop_last()), //@w @C09 @C19 #colour_pops_at_most_one
+            final(self).ann_stack@ =~= (if D::colours_spec() && old(self).ann_stack@.len() > 0 { old(self).ann_stack@.drop_last() } else { old(self).ann_stack@ }), //@w @C09 @C19 #colour_pops_exactly_one
             final(self).ws_stack@ == old(self).ws_stack@ && final(self).pre_depth == old(self).pre_depth && final(self).text_filter_stack@ == old(self).text_filter_stack@ && final(self).same_config(old(self)) && final(self).wrapping == old(self).wrapping && final(self).lines@ == old(self).lines@ && final(self).pending_frags@ == old(self).pending_frags@, //@w @C09
     {
         if self.decorator.pop_colour() {
@@ -865,7 +870,8 @@ impl<D: TextDecorator> SubRenderer<D> {
 //@auto C01 C09
     fn push_bgcolour(&mut self, colour: Colour)
         ensures //@w
-            (final(self).ann_stack@ == old(self).ann_stack@) || (final(self).ann_stack@.len() == old(self).ann_stack@.len() + 1 && final(self).ann_stack@.drop_last() == old(self).ann_stack@), //@w @C09 @C19 #colour_pushes_at_most_one
+            // C09 / C19: an element with a winning colour puts exactly one annotation on the stack when the decorator annotates colours, and none otherwise //@w
+            final(self).ann_stack@.len() == old(self).ann_stack@.len() + (if D::colours_spec() { 1int } else { 0int }) && final(self).ann_stack@.take(old(self).ann_stack@.len() as int) =~= old(self).ann_stack@, //@w @C09 @C19 #colour_pushes_exactly_one
             final(self).ws_stack@ == old(self).ws_stack@ && final(self).pre_depth == old(self).pre_depth && final(self).text_filter_stack@ == old(self).text_filter_stack@ && final(self).same_config(old(self)) && final(self).wrapping == old(self).wrapping && final(self).lines@ == old(self).lines@ && final(self).pending_frags@ == old(self).pending_frags@, //@w @C09
     {
         if let Some(ann) = self.decorator.push_bgcolour(colour) {
@@ -877,7 +883,7 @@ impl<D: TextDecorator> SubRenderer<D> {
 //@auto C01 C09
     fn pop_bgcolour(&mut self)
         ensures //@w
-            (final(self).ann_stack@ == old(self).ann_stack@) || (old(self).ann_stack@.len() > 0 && final(self).ann_stack@ == old(self).ann_stack@.drop_last()), //@w @C09 @C19 #colour_pops_at_most_one
+            final(self).ann_stack@ =~= (if D::colours_spec() && old(self).ann_stack@.len() > 0 { old(self).ann_stack@.drop_last() } else { old(self).ann_stack@ }), //@w @C09 @C19 #colour_pops_exactly_one
             final(self).ws_stack@ == old(self).ws_stack@ && final(self).pre_depth == old(self).pre_depth && final(self).text_filter_stack@ == old(self).text_filter_stack@ && final(self).same_config(old(self)) && final(self).wrapping == old(self).wrapping && final(self).lines@ == old(self).lines@ && final(self).pending_frags@ == old(self).pending_frags@, //@w @C09
     {
         if self.decorator.pop_bgcolour() {
@@ -1045,9 +1051,9 @@ impl<D: TextDecorator> SubRenderer<D> {
                 };
             // every line of the nested block gets its prefix in front (the quote mark / heading marker on every line, the //@w
             // bullet or number then blank indentation), tagged with the enclosing annotations (C07, C09) //@w
-            assert(newline matches RenderLine::Text(t) && t.wf() && t.len == sw(prefix@) + (match olines@[it.index@] { RenderLine::Text(o) => o.len as int, RenderLine::Line(b) => b.w as int })); //@w @C07 @C02 #prefixed_line_width
-            assert(olines@[it.index@] matches RenderLine::Text(o) ==> (newline matches RenderLine::Text(t) && flat(t.v@) =~= flat_str(prefix@, tag) + flat(o.v@))); //@w @C07 @C09 @C03 #every_line_gets_its_prefix
-            assert(newline matches RenderLine::Text(t) && flat(t.v@) =~= pref_elt(olines@[it.index@], prefix@, tag)); //@w @C07 @C03 @C16 #every_line_gets_its_prefix
+            assert(newline matches RenderLine::Text(t) && t.wf() && t.len == sw(prefix@) + (match olines@[it.index@] { RenderLine::Text(o) => o.len as int, RenderLine::Line(b) => b.w as int })); //@w @C02 @C07 @C16 #prefixed_line_width
+            assert(olines@[it.index@] matches RenderLine::Text(o) ==> (newline matches RenderLine::Text(t) && flat(t.v@) =~= flat_str(prefix@, tag) + flat(o.v@))); //@w @C03 @C07 @C09 @C16 #every_line_gets_its_prefix
+            assert(newline matches RenderLine::Text(t) && flat(t.v@) =~= pref_elt(olines@[it.index@], prefix@, tag)); //@w @C03 @C07 @C16 #every_line_gets_its_prefix
             let ghost vk = self.rview(); //@w
             self.add_line(newline);
             proof { //@w
@@ -1198,7 +1204,7 @@ impl<D: TextDecorator> SubRenderer<D> {
 //@sub /for c in s\.chars\(\)/ ==> for c in itc: s.chars()
 //@sub /s: s\.to_owned\(\),/ ==> s: string_to_owned(&s),
 //@sub /let mut wrapped_line = TaggedLine::new\(\);/ ==> let mut wrapped_line: TaggedLine<Vec<D::Annotation>> = TaggedLine::new();
-//@auto C01 C02 C08
+//@auto C01 C02 C08 C15
     #[verifier::spinoff_prover] //@w
     fn fmt_links(&mut self, links: Vec<TaggedLine<D::Annotation>>)
         requires old(self).sr_inv(), tag_ok::<Vec<D::Annotation>>(), //@w
@@ -1316,14 +1322,14 @@ impl<D: TextDecorator> SubRenderer<D> {
             final(self).lines@.len() >= old(self).lines@.len() && final(self).lines@.take(old(self).lines@.len() as int) =~= old(self).lines@, //@w @C03 #inline_text_keeps_lines
             // L2 (C03, C09, C16): the open block gains exactly the kept characters of the text as it comes out of the filter stack, //@w
             // in order and tagged with the annotation stack; nothing else reaches it //@w
-            r.is_ok() ==> emitted(old(self).block_base(), old(self).ign(), final(self).wrapping, old(self).text_filter_stack@, text@, old(self).ann_stack@, old(self).pre_depth > 0), //@w @C03 @C09 @C16 #inline_text_reaches_block_verbatim
+            r.is_ok() ==> emitted(old(self).block_base(), old(self).ign(), final(self).wrapping, old(self).text_filter_stack@, text@, old(self).ann_stack@, old(self).pre_depth > 0), //@w @C03 @C04 @C09 @C16 #inline_text_reaches_block_verbatim
             // in white-space preserving modes no text is skipped, white space included: it always reaches the (possibly new) block (C12) //@w
             r.is_ok() && old(self).ws_mode_spec().preserve_spec() ==> final(self).wrapping is Some, //@w @C12 #preformatted_text_always_reaches_block
             // inline text inside an open block touches neither the finished lines nor the pending markers //@w
             !old(self).at_block_end ==> final(self).lines@ == old(self).lines@ && final(self).pending_frags@ == old(self).pending_frags@, //@w @C03 @C14 #inline_text_only_touches_block
             // L3: what the renderer holds afterwards is what it held before followed by those characters; nothing before them is lost, duplicated or reordered //@w
-            r.is_ok() && !(old(self).ign() && all_ws(text@)) && (old(self).at_block_end ==> old(self).flushable()) ==> //@w @C03 @C09 #inline_text_appended_to_view
-                emitted_view(old(self).rview(), final(self).rview(), old(self).text_filter_stack@, text@, old(self).ann_stack@, old(self).pre_depth > 0), //@w @C03 @C09 #inline_text_appended_to_view
+            r.is_ok() && !(old(self).ign() && all_ws(text@)) && (old(self).at_block_end ==> old(self).flushable()) ==> //@w @C03 @C04 @C09 #inline_text_appended_to_view
+                emitted_view(old(self).rview(), final(self).rview(), old(self).text_filter_stack@, text@, old(self).ann_stack@, old(self).pre_depth > 0), //@w @C03 @C04 @C09 #inline_text_appended_to_view
     {
         html_trace!("add_inline_text({}, {})", self.width, text);
         if !self.ws_mode().preserve_whitespace()
@@ -1390,8 +1396,8 @@ impl<D: TextDecorator> SubRenderer<D> {
             let acc = choose|acc: Seq<CItem<Vec<D::Annotation>>>| #[trigger] tagged_by(acc, kept(filtered_text@), *main_tag, *cont_tag) && all_ns(wrapping.text@, wrapping.line.v@, wrapping.word.v@) =~= base + acc; //@w
             if old(self).at_block_end ==> old(self).flushable() { //@w
                 let v_mid = ns(rl_flat(mid_lines)) + flat(mid_pf) + base; //@w
-                assert(v_mid =~= old(self).rview()); //@w @C03 @C09 #inline_text_appended_to_view
-                assert(self.rview() =~= old(self).rview() + acc); //@w @C03 @C09 #inline_text_appended_to_view
+                assert(v_mid =~= old(self).rview()); //@w @C03 @C04 @C09 #inline_text_appended_to_view
+                assert(self.rview() =~= old(self).rview() + acc); //@w @C03 @C04 @C09 #inline_text_appended_to_view
                 assert(tagged_by(acc, kept(filtered_text@), *main_tag, *cont_tag) && self.rview() =~= old(self).rview() + acc); //@w
             } //@w
         } //@w
@@ -1407,7 +1413,7 @@ impl<D: TextDecorator> SubRenderer<D> {
             r.is_ok() ==> final(self).sr_inv(), //@w @C02
             // exactly one annotation is pushed on an otherwise unchanged stack (C09) //@w
             final(self).ann_stack@.len() == old(self).ann_stack@.len() + 1 && final(self).ann_stack@.drop_last() == old(self).ann_stack@, //@w @C09 #start_pushes_one_annotation
-            final(self).ws_stack@ == old(self).ws_stack@ && final(self).pre_depth == old(self).pre_depth && final(self).same_config(old(self)), //@w @C09 #start_keeps_other_stacks
+            final(self).ws_stack@ == old(self).ws_stack@ && final(self).pre_depth == old(self).pre_depth && final(self).same_config(old(self)), //@w @C04 @C09 @C13 #start_keeps_other_stacks
             final(self).text_filter_stack@ == old(self).text_filter_stack@, //@w @C15 #filters_unchanged
             old(self).options.allow_width_overflow ==> r.is_ok(), //@w @C11
             r.is_ok() ==> final(self).wtotal() <= old(self).wtotal() + 0x4_0000_0000 || final(self).wtotal() <= old(self).width + 0x4_0000_0000, //@w @C01 #growth_bound
@@ -1428,7 +1434,7 @@ impl<D: TextDecorator> SubRenderer<D> {
             r.is_ok() ==> final(self).sr_inv(), //@w @C02
             // the annotation pushed by the matching start is popped, nothing else (C09: no annotation leaks past its element) //@w
             r.is_ok() ==> final(self).ann_stack@ == old(self).ann_stack@.drop_last(), //@w @C09 #end_pops_one_annotation
-            final(self).ws_stack@ == old(self).ws_stack@ && final(self).pre_depth == old(self).pre_depth && final(self).same_config(old(self)), //@w @C09 #end_keeps_other_stacks
+            final(self).ws_stack@ == old(self).ws_stack@ && final(self).pre_depth == old(self).pre_depth && final(self).same_config(old(self)), //@w @C04 @C09 @C13 #end_keeps_other_stacks
             final(self).text_filter_stack@ == old(self).text_filter_stack@, //@w @C15 #filters_unchanged
             old(self).options.allow_width_overflow ==> r.is_ok(), //@w @C11
             r.is_ok() ==> final(self).wtotal() <= old(self).wtotal() + 0x4_0000_0000 || final(self).wtotal() <= old(self).width + 0x4_0000_0000, //@w @C01 #growth_bound
@@ -1448,7 +1454,7 @@ impl<D: TextDecorator> SubRenderer<D> {
             r.is_ok() ==> final(self).sr_inv(), //@w @C02
             // exactly one annotation is pushed on an otherwise unchanged stack (C09) //@w
             final(self).ann_stack@.len() == old(self).ann_stack@.len() + 1 && final(self).ann_stack@.drop_last() == old(self).ann_stack@, //@w @C09 #start_pushes_one_annotation
-            final(self).ws_stack@ == old(self).ws_stack@ && final(self).pre_depth == old(self).pre_depth && final(self).same_config(old(self)), //@w @C09 #start_keeps_other_stacks
+            final(self).ws_stack@ == old(self).ws_stack@ && final(self).pre_depth == old(self).pre_depth && final(self).same_config(old(self)), //@w @C04 @C09 @C13 #start_keeps_other_stacks
             final(self).text_filter_stack@ == old(self).text_filter_stack@, //@w @C15 #filters_unchanged
             old(self).options.allow_width_overflow ==> r.is_ok(), //@w @C11
             r.is_ok() ==> final(self).wtotal() <= old(self).wtotal() + 0x4_0000_0000 || final(self).wtotal() <= old(self).width + 0x4_0000_0000, //@w @C01 #growth_bound
@@ -1471,7 +1477,7 @@ impl<D: TextDecorator> SubRenderer<D> {
             r.is_ok() ==> final(self).sr_inv(), //@w @C02
             // the annotation pushed by the matching start is popped, nothing else (C09: no annotation leaks past its element) //@w
             r.is_ok() ==> final(self).ann_stack@ == old(self).ann_stack@.drop_last(), //@w @C09 #end_pops_one_annotation
-            final(self).ws_stack@ == old(self).ws_stack@ && final(self).pre_depth == old(self).pre_depth && final(self).same_config(old(self)), //@w @C09 #end_keeps_other_stacks
+            final(self).ws_stack@ == old(self).ws_stack@ && final(self).pre_depth == old(self).pre_depth && final(self).same_config(old(self)), //@w @C04 @C09 @C13 #end_keeps_other_stacks
             final(self).text_filter_stack@ == old(self).text_filter_stack@, //@w @C15 #filters_unchanged
             old(self).options.allow_width_overflow ==> r.is_ok(), //@w @C11
             r.is_ok() ==> final(self).wtotal() <= old(self).wtotal() + 0x4_0000_0000 || final(self).wtotal() <= old(self).width + 0x4_0000_0000, //@w @C01 #growth_bound
@@ -1493,7 +1499,7 @@ impl<D: TextDecorator> SubRenderer<D> {
             r.is_ok() ==> final(self).sr_inv(), //@w @C02
             // exactly one annotation is pushed on an otherwise unchanged stack (C09) //@w
             final(self).ann_stack@.len() == old(self).ann_stack@.len() + 1 && final(self).ann_stack@.drop_last() == old(self).ann_stack@, //@w @C09 #start_pushes_one_annotation
-            final(self).ws_stack@ == old(self).ws_stack@ && final(self).pre_depth == old(self).pre_depth && final(self).same_config(old(self)), //@w @C09 #start_keeps_other_stacks
+            final(self).ws_stack@ == old(self).ws_stack@ && final(self).pre_depth == old(self).pre_depth && final(self).same_config(old(self)), //@w @C04 @C09 @C13 #start_keeps_other_stacks
             final(self).text_filter_stack@ == old(self).text_filter_stack@, //@w @C15 #filters_unchanged
             old(self).options.allow_width_overflow ==> r.is_ok(), //@w @C11
             r.is_ok() ==> final(self).wtotal() <= old(self).wtotal() + 0x4_0000_0000 || final(self).wtotal() <= old(self).width + 0x4_0000_0000, //@w @C01 #growth_bound
@@ -1516,7 +1522,7 @@ impl<D: TextDecorator> SubRenderer<D> {
             r.is_ok() ==> final(self).sr_inv(), //@w @C02
             // the annotation pushed by the matching start is popped, nothing else (C09: no annotation leaks past its element) //@w
             r.is_ok() ==> final(self).ann_stack@ == old(self).ann_stack@.drop_last(), //@w @C09 #end_pops_one_annotation
-            final(self).ws_stack@ == old(self).ws_stack@ && final(self).pre_depth == old(self).pre_depth && final(self).same_config(old(self)), //@w @C09 #end_keeps_other_stacks
+            final(self).ws_stack@ == old(self).ws_stack@ && final(self).pre_depth == old(self).pre_depth && final(self).same_config(old(self)), //@w @C04 @C09 @C13 #end_keeps_other_stacks
             final(self).text_filter_stack@ == old(self).text_filter_stack@, //@w @C15 #filters_unchanged
             old(self).options.allow_width_overflow ==> r.is_ok(), //@w @C11
             r.is_ok() ==> final(self).wtotal() <= old(self).wtotal() + 0x4_0000_0000 || final(self).wtotal() <= old(self).width + 0x4_0000_0000, //@w @C01 #growth_bound
@@ -1538,7 +1544,7 @@ impl<D: TextDecorator> SubRenderer<D> {
             r.is_ok() ==> final(self).sr_inv(), //@w @C02
             // exactly one annotation is pushed on an otherwise unchanged stack (C09) //@w
             final(self).ann_stack@.len() == old(self).ann_stack@.len() + 1 && final(self).ann_stack@.drop_last() == old(self).ann_stack@, //@w @C09 #start_pushes_one_annotation
-            final(self).ws_stack@ == old(self).ws_stack@ && final(self).pre_depth == old(self).pre_depth && final(self).same_config(old(self)), //@w @C09 #start_keeps_other_stacks
+            final(self).ws_stack@ == old(self).ws_stack@ && final(self).pre_depth == old(self).pre_depth && final(self).same_config(old(self)), //@w @C04 @C09 @C13 #start_keeps_other_stacks
             final(self).text_filter_stack@ == old(self).text_filter_stack@, //@w @C15 #filters_unchanged
             old(self).options.allow_width_overflow ==> r.is_ok(), //@w @C11
             r.is_ok() ==> final(self).wtotal() <= old(self).wtotal() + 0x4_0000_0000 || final(self).wtotal() <= old(self).width + 0x4_0000_0000, //@w @C01 #growth_bound
@@ -1562,7 +1568,7 @@ impl<D: TextDecorator> SubRenderer<D> {
             r.is_ok() ==> final(self).sr_inv(), //@w @C02
             // the annotation pushed by the matching start is popped, nothing else (C09: no annotation leaks past its element) //@w
             r.is_ok() ==> final(self).ann_stack@ == old(self).ann_stack@.drop_last(), //@w @C09 #end_pops_one_annotation
-            final(self).ws_stack@ == old(self).ws_stack@ && final(self).pre_depth == old(self).pre_depth && final(self).same_config(old(self)), //@w @C09 #end_keeps_other_stacks
+            final(self).ws_stack@ == old(self).ws_stack@ && final(self).pre_depth == old(self).pre_depth && final(self).same_config(old(self)), //@w @C04 @C09 @C13 #end_keeps_other_stacks
             final(self).text_filter_stack@ == old(self).text_filter_stack@, //@w @C15 #filters_unchanged
             old(self).options.allow_width_overflow ==> r.is_ok(), //@w @C11
             r.is_ok() ==> final(self).wtotal() <= old(self).wtotal() + 0x4_0000_0000 || final(self).wtotal() <= old(self).width + 0x4_0000_0000, //@w @C01 #growth_bound
@@ -1605,7 +1611,7 @@ impl<D: TextDecorator> SubRenderer<D> {
             r.is_ok() ==> final(self).sr_inv(), //@w @C02
             // exactly one annotation is pushed on an otherwise unchanged stack (C09) //@w
             final(self).ann_stack@.len() == old(self).ann_stack@.len() + 1 && final(self).ann_stack@.drop_last() == old(self).ann_stack@, //@w @C09 #start_pushes_one_annotation
-            final(self).ws_stack@ == old(self).ws_stack@ && final(self).pre_depth == old(self).pre_depth && final(self).same_config(old(self)), //@w @C09 #start_keeps_other_stacks
+            final(self).ws_stack@ == old(self).ws_stack@ && final(self).pre_depth == old(self).pre_depth && final(self).same_config(old(self)), //@w @C04 @C09 @C13 #start_keeps_other_stacks
             final(self).text_filter_stack@ == old(self).text_filter_stack@, //@w @C15 #filters_unchanged
             old(self).options.allow_width_overflow ==> r.is_ok(), //@w @C11
             r.is_ok() ==> final(self).wtotal() <= old(self).wtotal() + 0x4_0000_0000 || final(self).wtotal() <= old(self).width + 0x4_0000_0000, //@w @C01 #growth_bound
@@ -1629,7 +1635,7 @@ impl<D: TextDecorator> SubRenderer<D> {
             r.is_ok() ==> final(self).sr_inv(), //@w @C02
             // the annotation pushed by the matching start is popped, nothing else (C09: no annotation leaks past its element) //@w
             r.is_ok() ==> final(self).ann_stack@ == old(self).ann_stack@.drop_last(), //@w @C09 #end_pops_one_annotation
-            final(self).ws_stack@ == old(self).ws_stack@ && final(self).pre_depth == old(self).pre_depth && final(self).same_config(old(self)), //@w @C09 #end_keeps_other_stacks
+            final(self).ws_stack@ == old(self).ws_stack@ && final(self).pre_depth == old(self).pre_depth && final(self).same_config(old(self)), //@w @C04 @C09 @C13 #end_keeps_other_stacks
             final(self).text_filter_stack@ == old(self).text_filter_stack@, //@w @C15 #filters_unchanged
             old(self).options.allow_width_overflow ==> r.is_ok(), //@w @C11
             r.is_ok() ==> final(self).wtotal() <= old(self).wtotal() + 0x4_0000_0000 || final(self).wtotal() <= old(self).width + 0x4_0000_0000, //@w @C01 #growth_bound
@@ -1652,7 +1658,7 @@ impl<D: TextDecorator> SubRenderer<D> {
             r.is_ok() ==> final(self).sr_inv(), //@w @C02
             // exactly one annotation is pushed on an otherwise unchanged stack (C09) //@w
             final(self).ann_stack@.len() == old(self).ann_stack@.len() + 1 && final(self).ann_stack@.drop_last() == old(self).ann_stack@, //@w @C09 #start_pushes_one_annotation
-            final(self).ws_stack@ == old(self).ws_stack@ && final(self).pre_depth == old(self).pre_depth && final(self).same_config(old(self)), //@w @C09 #start_keeps_other_stacks
+            final(self).ws_stack@ == old(self).ws_stack@ && final(self).pre_depth == old(self).pre_depth && final(self).same_config(old(self)), //@w @C04 @C09 @C13 #start_keeps_other_stacks
             // the strike-through filter is active exactly when the option is on (C15) //@w
             r.is_ok() && old(self).options.use_unicode_strikeout ==> final(self).text_filter_stack@.len() == old(self).text_filter_stack@.len() + 1 && final(self).text_filter_stack@.drop_last() == old(self).text_filter_stack@ && final(self).text_filter_stack@.last().is_strikeout(), //@w @C15 #strikeout_filter_pushed
             !old(self).options.use_unicode_strikeout ==> final(self).text_filter_stack@ == old(self).text_filter_stack@, //@w @C15 #no_filter_without_option
@@ -1681,7 +1687,7 @@ impl<D: TextDecorator> SubRenderer<D> {
             r.is_ok() ==> final(self).sr_inv(), //@w @C02
             // the annotation pushed by the matching start is popped, nothing else (C09: no annotation leaks past its element) //@w
             r.is_ok() ==> final(self).ann_stack@ == old(self).ann_stack@.drop_last(), //@w @C09 #end_pops_one_annotation
-            final(self).ws_stack@ == old(self).ws_stack@ && final(self).pre_depth == old(self).pre_depth && final(self).same_config(old(self)), //@w @C09 #end_keeps_other_stacks
+            final(self).ws_stack@ == old(self).ws_stack@ && final(self).pre_depth == old(self).pre_depth && final(self).same_config(old(self)), //@w @C04 @C09 @C13 #end_keeps_other_stacks
             r.is_ok() && old(self).options.use_unicode_strikeout ==> final(self).text_filter_stack@ == old(self).text_filter_stack@.drop_last(), //@w @C15 #strikeout_filter_popped
             !old(self).options.use_unicode_strikeout ==> final(self).text_filter_stack@ == old(self).text_filter_stack@, //@w @C15
             old(self).options.allow_width_overflow ==> r.is_ok(), //@w @C11
@@ -1721,6 +1727,8 @@ struct PushedStyleInfo {
 //@end
 // R13: #[derive(Default)] of four bools
 fn psi_default() -> (r: PushedStyleInfo) ensures !r.colour && !r.bgcolour && !r.white_space && !r.preformat { PushedStyleInfo { colour: false, bgcolour: false, white_space: false, preformat: false } }
+// the number of annotations the colour flags of a PushedStyleInfo stand for
+spec fn npushed<D: TextDecorator>(p: PushedStyleInfo) -> int { if D::colours_spec() { (if p.colour { 1int } else { 0int }) + (if p.bgcolour { 1int } else { 0int }) } else { 0int } }
 impl PushedStyleInfo {
 //@item src/lib.rs :: impl PushedStyleInfo :: fn apply
 //@auto C01 C09 C12
@@ -1737,8 +1745,8 @@ impl PushedStyleInfo {
             final(render).ws_stack@ == (if r.white_space { old(render).ws_stack@.push(style.white_space.v->Some_0) } else { old(render).ws_stack@ }), //@w @C12 @C09 #apply_pushes_white_space
             r.preformat == style.internal_pre && final(render).pre_depth == old(render).pre_depth + (if r.preformat { 1int } else { 0int }), //@w @C12 @C09 #apply_pushes_preformat
             r.colour == style.colour.v.is_some() && r.bgcolour == style.bg_colour.v.is_some(), //@w @C19 @C09 #apply_flags_colours
-            // colours put at most one annotation each on top of the unchanged stack (C19) //@w
-            final(render).ann_stack@.len() >= old(render).ann_stack@.len() && final(render).ann_stack@.len() <= old(render).ann_stack@.len() + 2 && final(render).ann_stack@.take(old(render).ann_stack@.len() as int) =~= old(render).ann_stack@, //@w @C19 @C09 #apply_keeps_annotations_below
+            // each winning colour puts exactly one annotation on top of the unchanged stack when the decorator annotates colours (C19, C09) //@w
+            final(render).ann_stack@.len() == old(render).ann_stack@.len() + npushed::<D>(r) && final(render).ann_stack@.take(old(render).ann_stack@.len() as int) =~= old(render).ann_stack@, //@w @C19 @C09 #apply_keeps_annotations_below
             !r.colour && !r.bgcolour ==> final(render).ann_stack@ == old(render).ann_stack@, //@w @C09 #apply_without_colours_keeps_stack
             final(render).text_filter_stack@ == old(render).text_filter_stack@ && final(render).same_config(old(render)) && final(render).wrapping == old(render).wrapping && final(render).lines@ == old(render).lines@ && final(render).pending_frags@ == old(render).pending_frags@, //@w @C09 #apply_frame
     {
@@ -1773,7 +1781,8 @@ impl PushedStyleInfo {
             // exactly what apply pushed is popped: white space and preformat depth return to where they were (C09, C12: nothing leaks past the element) //@w
             final(renderer).ws_stack@ == (if self.white_space && old(renderer).ws_stack@.len() > 0 { old(renderer).ws_stack@.drop_last() } else { old(renderer).ws_stack@ }), //@w @C12 @C09 #unwind_pops_white_space
             final(renderer).pre_depth == old(renderer).pre_depth - (if self.preformat { 1int } else { 0int }), //@w @C12 @C09 #unwind_pops_preformat
-            final(renderer).ann_stack@.len() <= old(renderer).ann_stack@.len() && final(renderer).ann_stack@.len() + 2 >= old(renderer).ann_stack@.len() && final(renderer).ann_stack@ =~= old(renderer).ann_stack@.take(final(renderer).ann_stack@.len() as int), //@w @C19 @C09 #unwind_pops_at_most_the_colours
+            // exactly the colour annotations apply pushed are popped: the stack below them is what it was (C09: no annotation leaks past the end of its element, none is lost) //@w
+            old(renderer).ann_stack@.len() >= npushed::<D>(self) ==> final(renderer).ann_stack@ =~= old(renderer).ann_stack@.take(old(renderer).ann_stack@.len() - npushed::<D>(self)), //@w @C19 @C09 #unwind_pops_exactly_the_colours
             !self.colour && !self.bgcolour ==> final(renderer).ann_stack@ == old(renderer).ann_stack@, //@w @C09 #unwind_without_colours_keeps_stack
             final(renderer).text_filter_stack@ == old(renderer).text_filter_stack@ && final(renderer).same_config(old(renderer)) && final(renderer).wrapping == old(renderer).wrapping && final(renderer).lines@ == old(renderer).lines@ && final(renderer).pending_frags@ == old(renderer).pending_frags@, //@w @C09 #unwind_frame
     {
@@ -1796,7 +1805,7 @@ impl PushedStyleInfo {
 fn apply_then_unwind<D: TextDecorator>(render: &mut SubRenderer<D>, style: &ComputedStyle)
     requires old(render).pre_depth < usize::MAX,
     ensures final(render).ws_stack@ == old(render).ws_stack@, final(render).pre_depth == old(render).pre_depth,
-        style.colour.v is None && style.bg_colour.v is None ==> final(render).ann_stack@ == old(render).ann_stack@,
+        final(render).ann_stack@ =~= old(render).ann_stack@,
 {
     let p = PushedStyleInfo::apply(render, style);
     p.unwind(render);
